@@ -90,6 +90,8 @@ class C14(core.Prop):
                 out.append({'mode': 'resolve', 'reuse': n, 'numform': form, 'last': 'aa'})
                 out.append({'mode': 'resolve', 'reuse': n, 'numform': form, 'last': 'cg'})
                 # the same through the other constructor: fragments read separately and handed over as graphs
+                out.append({'mode': 'resolve', 'reuse': n, 'numform': form, 'last': 'aa', 'variant': 'single_atom_fragment'})
+                out.append({'mode': 'resolve', 'reuse': n, 'numform': form, 'last': 'cg', 'variant': 'single_atom_fragment'})
                 out.append({'mode': 'resolve', 'reuse': n, 'numform': form, 'last': 'aa', 'entry': 'dicts'})
                 out.append({'mode': 'resolve', 'reuse': n, 'numform': form, 'last': 'cg', 'entry': 'dicts'})
         return out
@@ -135,10 +137,11 @@ class C14(core.Prop):
         }
         n = shape['reuse']
         base = cat('{[#A;q=', v['aq'], ']', '[#B;', '0', ';', v['bw'], ';m=', v['bm'], ']', ('|%d' % n) if n > 1 else '', '}')
+        single = shape.get('variant') == 'single_atom_fragment'     # the annotated atom is the whole fragment B
         if shape['last'] == 'aa':
-            frags = cat('{#A=[C;w=', v['c1w'], '](', '[H;', v['h1w'], '])C[$],#B=[$][C;x=', v['o1x'], ';z=', v['fz'], ']O[$]}')
+            frags = cat('{#A=[C;w=', v['c1w'], '](', '[H;', v['h1w'], '])C[$],#B=[$][C;x=', v['o1x'], ';z=', v['fz'], ']', '' if single else 'O', '[$]}')
         else:
-            frags = cat('{#A=[#P;w=', v['c1w'], '][#Q;', v['h1w'], '][$],#B=[$][#R;x=', v['o1x'], ';z=', v['fz'], '][#S][$]}')
+            frags = cat('{#A=[#P;w=', v['c1w'], '][#Q;', v['h1w'], '][$],#B=[$][#R;x=', v['o1x'], ';z=', v['fz'], ']', '' if single else '[#S]', '[$]}')
         return {'text': cat(base, '.', frags), 'vals': v}
 
     # ------------------------------------------------------------------
